@@ -127,7 +127,9 @@ func DHTGet(params DHTGetParams) (*DHTGetResult, error) {
 			return nil, true
 		}
 		res.NumResponded++
-		res.Closest = node.ID
+		if res.Closest.IsZero() || DistanceLt(params.Key, node.ID[:], res.Closest[:]) {
+			res.Closest = node.ID
+		}
 		if resp.Value != nil && params.Validate(resp.Value) {
 			res.Value = resp.Value
 			res.From = node.ID
